@@ -1272,6 +1272,21 @@ def check_rw_extra(res, facts):
                     continue
                 t__ = blk_["term"]
                 via_q = t__["k"] == "call" and callee(t__) is not None and callee(t__)["name"] == "from_residual"
+                if via_q:
+                    # `self.read(dst)?` on the adapter's own never-failing method propagates an error that cannot occur: no construction
+                    ebq = ExprBuilder(b, facts, inline=False)
+                    src_ = canon(ebq.operand(t__["args"][0], (bi_, len(blk_["stmts"])))) if t__["args"] else None
+                    srcs = [y for y in walk(src_) if isinstance(y, tuple) and y and y[0] in ("call", "ucall") and str(y[1]).rsplit("::", 1)[-1] not in ("branch", "from_residual")] if src_ else []
+                    def never_fails(y):
+                        cands = facts.by_id.get(y[1], []) if y[0] == "call" else []
+                        if len(cands) != 1:
+                            return False
+                        cbq = cands[0]
+                        return not any(s_["k"] == "assign" and s_["rv"]["k"] == "agg" and str(s_["rv"].get("adt", "")).endswith("Result") and s_["rv"].get("variant") == "Err"
+                                       for bq in cbq.blocks for s_ in bq["stmts"]) and not any((callee(tq) or {}).get("name") == "from_residual" for _, tq in cbq.calls())
+                    if srcs and all(never_fails(y) for y in srcs if str(y[1]).rsplit("::", 1)[-1] in ("read", "write", "flush", "fill_buf") or (y[0] == "call" and facts.by_id.get(y[1]))):
+                        if any(str(y[1]).rsplit("::", 1)[-1] in ("read", "write", "flush", "fill_buf") or (y[0] == "call" and facts.by_id.get(y[1])) for y in srcs):
+                            via_q = False
                 if via_q or any(s_["k"] == "assign" and s_["rv"]["k"] == "agg" and str(s_["rv"].get("adt", "")).endswith("Result") and s_["rv"].get("variant") == "Err" for s_ in blk_["stmts"]):
                     ctx_ = Ctx(b, bi_, facts)
                     # "transfer min(available, requested)": what is there has gone through before the adapter gives up (std's write_all writes the
